@@ -915,6 +915,9 @@ func (ft *FuncTr) ret(st *State, at *Term, x *ssa.Return) error {
 	}
 	env := ft.newEnv(st)
 	for i, en := range ft.c.Ensures {
+		if en.Assumed {
+			continue // given to callers, not proved here (reported as an assumption)
+		}
 		t, err := env.trBool(en.E)
 		if err != nil {
 			return fmt.Errorf("ensures[%d] (%s:%d): %v", i+1, en.File, en.Line, err)
